@@ -91,7 +91,7 @@ def build_batches(chk: Check, *, codemods=None, seeds_per_codemod: int = 2, vect
                 rel = f"v{n:03d}.py"
                 n += 1
                 files[rel] = text
-                metas[rel] = {"seed": s.key, "vector": v}
+                metas[rel] = {"seed": s.key, "vector": v, "seed_input": s.input, "seed_expected": s.expected}
         if not files:
             continue
         argv = ["{dir}", "--output", "{out}", "--codemod-include", cid]
